@@ -441,6 +441,11 @@ def run(ctx, rep):
     K.share(ctx, rep, "c08", lambda o: o.rule == "R08.1" and (o.key.startswith("_dispatch_request: failure of") or
                                                               "configured local propagation" in o.key), "R09.8", floor=4)
     K.share(ctx, rep, "c16", lambda o: o.rule == "R16.3" and "rpyc.core.vinegar" in o.key, "R09.9", floor=1)
+    # the exception object the caller gets is the one rebuilt from the reply, every time it is asked for, and the reply describes
+    # the exception just caught (not connection-wide state another thread may have replaced)
+    K.share(ctx, rep, "c01", lambda o: o.rule == "R01.4" and ("AsyncResult.value" in o.key or "exception reply describes" in o.key or
+                                                             "exception object the reply carries" in o.key), "R09.8", floor=2)
+    K.share(ctx, rep, "c13", lambda o: o.rule == "R13.5" and "written only by" in o.key, "R09.8", floor=1)
     _dump_record_model(ctx, rep)
 
 
